@@ -204,8 +204,9 @@ func NewCluster(
 	c.wg.Add(1)
 	go func() {
 		defer c.wg.Done()
-		c.ready(ReadyTimeout)
-		c.run()
+		if c.ready(ReadyTimeout) {
+			c.run()
+		}
 	}()
 
 	return c, nil
@@ -604,7 +605,11 @@ func (c *Cluster) run() {
 	}()
 }
 
-func (c *Cluster) ready(timeout time.Duration) {
+// ready waits for the consensus component and returns true when the peer is
+// ready. Otherwise it triggers a shutdown and returns false. The shutdown
+// runs on its own goroutine: Shutdown() waits for the goroutines registered
+// in c.wg and ready() runs on one of them.
+func (c *Cluster) ready(timeout time.Duration) bool {
 	ctx, span := trace.StartSpan(c.ctx, "cluster/ready")
 	defer span.End()
 
@@ -629,15 +634,15 @@ This might be due to one or several causes:
     same version of IPFS-cluster.
 **************************************************
 `)
-		c.Shutdown(ctx)
-		return
+		go c.Shutdown(ctx)
+		return false
 	case <-c.consensus.Ready(ctx):
 		// Consensus ready means the state is up to date. Every item
 		// in the state that is not pinned will appear as PinError so
 		// we can proceed to recover all of those in the tracker.
 		c.RecoverAllLocal(ctx)
 	case <-c.ctx.Done():
-		return
+		return false
 	}
 
 	// Cluster is ready.
@@ -645,8 +650,8 @@ This might be due to one or several causes:
 	peers, err := c.consensus.Peers(ctx)
 	if err != nil {
 		logger.Error(err)
-		c.Shutdown(ctx)
-		return
+		go c.Shutdown(ctx)
+		return false
 	}
 
 	logger.Info("Cluster Peers (without including ourselves):")
@@ -665,6 +670,7 @@ This might be due to one or several causes:
 	c.readyB = true
 	c.shutdownLock.Unlock()
 	logger.Info("** IPFS Cluster is READY **")
+	return true
 }
 
 // Ready returns a channel which signals when this peer is
